@@ -24,7 +24,7 @@ ASSUMPTIONS = [
     'param.random_seed is left at its default; times are ints or Fractions (floats are cast with a warning)',
     'the global Dynamic.time_fn Time instance is used (each shard is its own process; state restored per case)',
 ]
-REQUIRED = {'clock_tree_reads': 300, 'reads': 3000, 'revisit_reads': 500, 'inspections': 300, 'contexts': 100, 'pushpops': 100, 'reads_raised': 20,
+REQUIRED = {'strict_time_contexts': 10, 'clock_tree_reads': 300, 'reads': 3000, 'revisit_reads': 500, 'inspections': 300, 'contexts': 100, 'pushpops': 100, 'reads_raised': 20,
             'sampled_reads': 100, 'sampled_cross_checks': 20,
             'class_level_generator_sets': 50, 'pushpops_through_holder': 50}
 
@@ -191,6 +191,41 @@ def clock_tree_case(idx, rng, P, rep, param, ng):
     rep.case(('clock-tree', kind, depth, len(nodes)), depth > 1)
 
 
+def strict_time_case(idx, rng, P, rep, param, ng):
+    """A clock whose own parameters are watched (a Time subclass that refuses an `until` before the current time): leaving a
+    time context puts time, timestep and until back, whatever was changed inside, without tripping over its own watchers."""
+    class StrictTime(param.Time):
+        @param.depends('until', watch=True)
+        def _check(self):
+            if self.until is not None and self.until < self():
+                raise ValueError(f'until={self.until} lies before the current time {self()}')
+    t0 = rng.randint(1, 10)
+    clock = StrictTime(time_type=int, until=t0 + rng.randint(5, 20))
+    clock(t0)
+    gen = ng.UniformRandom(name=f'strict{idx}', seed=rng.randint(1, 99), time_dependent=True, time_fn=clock)
+    Holder = type(f'SH{idx}', (param.Parameterized,), dict(v=param.Number(default=0.0)))
+    saved_td = param.Dynamic.time_dependent
+    h = Holder(v=gen)
+    h.param.set_dynamic_time_fn(clock)
+    before = (clock(), clock.until, clock.timestep, h.v)
+    desc = dict(kind='strict-time', start=t0)
+    try:
+        with clock:
+            clock.until = clock.until + rng.randint(50, 100)
+            clock(t0 + rng.randint(25, 45))
+            h.v
+            if rng.random() < 0.5:
+                clock.timestep = 2
+    except Exception as e:   # noqa: BLE001
+        rep.violation('C19/time-context-exit-raised', f'leaving a time context raised {type(e).__name__}: {e}', case=desc)
+    after = (clock(), clock.until, clock.timestep, h.v)
+    rep.count('strict_time_contexts')
+    rep.count('reads', 2)
+    if after != before:
+        rep.violation('C19/time-context-did-not-restore', f'(time, until, timestep, value) before the context {before}, after it {after}', case=desc)
+    rep.case(('strict-time',), True)
+
+
 def run_case(idx, rng, P, rep):
     param, ng = _st['param'], _st['ng']
     T = param.Dynamic.time_fn
@@ -201,6 +236,8 @@ def run_case(idx, rng, P, rep):
     try:
         if rng.random() < 0.05:
             clock_tree_case(idx, rng, P, rep, param, ng)
+        elif rng.random() < 0.04:
+            strict_time_case(idx, rng, P, rep, param, ng)
         else:
             _run(idx, rng, P, rep, param, ng, T, use_frac)
     finally:
